@@ -75,6 +75,8 @@ type Conn struct {
 	Out      []byte // bytes accepted from the client
 	fedLimit int    // bytes beyond this offset never reach the broker (-1 = no limit)
 	wfaults  []WFault
+	// CloseErr is what the first Close returns (nil normally).
+	CloseErr error
 	wdl, rdl bool
 	// a deadline which has passed stays passed until it is set anew: every
 	// further Read (Write) fails at once, as on a real connection
@@ -83,14 +85,14 @@ type Conn struct {
 	// the same duration (PauseTimeout), so when a write deadline passes, a read
 	// deadline which was set before it has passed too
 	rdlSetSeq, wdlSetSeq int
-	rdlProg                int
-	wdlProg                int
-	closed                 bool
-	closeN                 int
-	broken                 bool // harness broke it
-	wErr                   error
-	failedW                bool // a Write returned an error
-	WritesAfterFail        int
+	rdlProg              int
+	wdlProg              int
+	closed               bool
+	closeN               int
+	broken               bool // harness broke it
+	wErr                 error
+	failedW              bool // a Write returned an error
+	WritesAfterFail      int
 
 	in       []byte // undelivered inbound bytes
 	InOff    int    // inbound bytes delivered
@@ -688,7 +690,9 @@ func (c *Conn) Close() error {
 	w.Broker.Kill(c.N)
 	w.log(Event{Kind: EvConnClose, Conn: c.N})
 	w.cond.Broadcast()
-	return nil
+	// (closing can fail: a TLS connection sends its close_notify alert, and
+	// the peer may be gone by then; the connection is closed all the same)
+	return c.CloseErr
 }
 
 // Closed tells whether the client closed the connection.
